@@ -146,6 +146,16 @@ pub fn cases(tier: &str, seed: u64) -> Vec<Case> {
                 let back = t.attributes();
                 // the empty key is the recorded `empty-attribute-key` situation of C15, not of this property's quantifier
                 if back != m { c = c.fail(if m.contains_key("") { "attrs-empty-key" } else { "attrs-roundtrip" }, format!("{:?} came back as {:?}", m, back)); }
+                // ... and through the wire, with both writers (RDLENGTH of the plain one comes from the cached size)
+                if !m.is_empty() && !m.contains_key("") {
+                    let mut p = Packet::new_reply(3);
+                    p.answers.push(ResourceRecord::new(Name::new_unchecked("m"), CLASS::IN, 1, rdata::RData::TXT(t.clone())));
+                    p.answers.push(ResourceRecord::new(Name::new_unchecked("m"), CLASS::IN, 1, rdata::RData::A(rdata::A { address: 5 })));
+                    for (how, bytes) in [("plain", p.build_bytes_vec()), ("compressed", p.build_bytes_vec_compressed())] {
+                        let ok = bytes.ok().and_then(|b| Packet::parse(&b).ok().map(|q| q.answers.len() == 2 && match &q.answers[0].rdata { rdata::RData::TXT(t2) => t2.attributes() == m, _ => false })).unwrap_or(false);
+                        if !ok { c = c.fail("attrs-wire", format!("{} writer: the attribute map {:?} does not come back through the wire", how, m)); }
+                    }
+                }
             }
             Err(_) => if fits { c = c.fail("map-refused", format!("{:?}", m)); },
         }
